@@ -11,7 +11,10 @@ listener calls, the public connection state each incoming listener must see,
 where the bytes of an outgoing packet lie relative to its listeners, what
 reaches the server, and the final state.
 """
+import functools
+import gc
 import itertools
+import os
 import random
 
 from vf import harness, protoids, explore, statehash, pysched
@@ -80,7 +83,55 @@ RULE = (
     'class), the other classes all empty or (757) all plain P; run with '
     'every history; for the ~ histories also with the second registration '
     'of A made late (757; all versions in thorough).  Calls are identified '
-    'by (class, callable).  Concurrent registration (schedules): user '
+    'by (class, callable).  '
+    'How a registration is written (route; everywhere else: reg = '
+    'register_packet_listener(f, *types, early=.., outgoing=..)): reg_rev = '
+    'the flags in the other order, reg_min = only the flags that are True, '
+    'kw = register_packet_listener(f, *types, **kw) with ONE dict object per '
+    'class used for every such registration, dec = a fresh '
+    'conn.listener(*types, early=.., outgoing=..) decorator per function, '
+    'dec_kw = a fresh conn.listener(*types, **kw) with the shared dict, '
+    'sdec = ONE decorator object per (class, filter), made at its first use '
+    'and applied to every function registered that way.  Configurations, in '
+    'each of the four classes (the others all empty or all plain P): R1 one '
+    'listener x 6 routes x filter x ignoring or not; R2 one decorator object '
+    'applied to 2 and to 3 functions in a row (6 filters; none or exactly '
+    'one of them ignoring), around / behind a plainly registered P listener, '
+    'and two decorator objects alternating (f1, f2, f1); R3 a decorator '
+    'object applied twice in each of two classes at once (applications '
+    'interleaved); R4 every ordered pair of routes inside one class x '
+    'filter pairs (P,P), (C,P), (P,C) x none / first / second ignoring.  '
+    'What is registered (kind of callable; everywhere else: a closure the '
+    'user keeps): closure, func (plain function without closure), lambda, '
+    'functools.partial, callable (instance with __call__), method (bound '
+    'method of an instance), cmeth (classmethod fetched from a class made '
+    'for that listener), smeth (staticmethod fetched from such a class); '
+    'each either kept (the user holds the callable, for methods the owner '
+    'object / class) or -tmp: built inline in the registration statement, so '
+    'that the registration is the only reference to it and (method, cmeth) '
+    'to its owner; 16 kinds.  When a -tmp kind is present gc.collect() runs '
+    'after the registrations before connect() and after the late ones.  '
+    'K1 one listener x 15 kinds x filters P, C, CS x ignoring or not; K2 '
+    'pairs of kinds inside one class (k,k), (k,closure), (closure,k) x '
+    'filter pairs (P,P), (C,P) x none / first / second ignoring; K3 one '
+    'P listener of '
+    'every kind x every route; K4 one decorator object applied to two '
+    'callables of one kind.  For the ~ histories: one late listener of '
+    'every route / kind (filters P, C; ignoring or not), one decorator '
+    'object made before connect() and applied again late (and twice late, '
+    'and three times), a pair of one kind as (before connect, late).  The '
+    'oracle is unchanged: class and position follow the flags and the '
+    'order of the registrations, whatever the route or the kind.  quick: '
+    '757 R1-R4, K1-K4 and the late set; 47 and 340 R1 (filters P, C, N), R2 '
+    '(in a row only), R4 (pairs with reg or of one route; filter pairs '
+    '(P,P), (C,P); none / first ignoring), K1 (filters P, C), K2 ((k,k) '
+    'only, filters (P,P), none / first ignoring), R1, R2, K1 with plain P '
+    'surroundings; histories connect, plugin, success, '
+    'keepalive, unknown+, chat_q, chat_f and the five ~ histories.  '
+    'thorough: every history; 47 and 340 as quick 757 (K3 with filters P '
+    'and C) plus the late set; 757 also all 255 ordered pairs of kinds and '
+    'R4 in both surroundings.  '
+    'Concurrent registration (schedules): user '
     'threads A and B register listeners while a scheduling window is open '
     '- every source line of register_packet_listener and '
     'PacketListener.__init__ and every shared-attribute bytecode of '
@@ -151,6 +202,14 @@ RULE = (
     'frames written; traces = executions.  Non-trivial = at least one '
     'listener fires for a primary packet.')
 ASSUMPTIONS = [
+    'a listener stays registered for the life of the Connection whether or '
+    'not the user keeps a reference to the callable or to the object whose '
+    'method it is (the statement quantifies over registered listeners; '
+    'nothing in the documentation of register_packet_listener lets a '
+    'registration lapse); CPython reference counting plus one forced '
+    'gc.collect() decide what "nobody else references it" means',
+    'routes and kinds of callable are crossed with the configurations '
+    'named in RULE, not with the whole product of filters and classes',
     'the built-in reactions assumed by the reference model are the '
     'documented ones: set-compression enables compression with the given '
     'threshold; login success switches to the play reactor; login plugin '
@@ -194,6 +253,28 @@ ASSUMPTIONS = [
 ]
 
 GROUPS = ('ie', 'io', 'oe', 'oo')
+# how a registration is written down (early / outgoing are the flags of the
+# listener's class)
+ROUTES = (
+    'reg',       # register_packet_listener(f, *types, early=.., outgoing=..)
+    'reg_rev',   # ... (f, *types, outgoing=.., early=..)
+    'reg_min',   # ... only the flags that are True are given
+    'kw',        # ... (f, *types, **kw), kw = ONE dict object per class
+    'dec',       # conn.listener(*types, early=.., outgoing=..)(f), a fresh
+                 # decorator per function
+    'dec_kw',    # conn.listener(*types, **kw)(f), fresh decorator, shared kw
+    'sdec',      # ONE decorator object per (class, types), applied to every
+                 # function registered that way
+)
+# what is registered; X-tmp: the registration is the only reference to it
+# (created inline in the registration statement), otherwise the user keeps
+# a reference (for method / cmeth / smeth: to the owner object / class)
+SHAPES = ('closure', 'func', 'lambda', 'partial', 'callable', 'method',
+          'cmeth', 'smeth')
+CALLABLES = tuple(s + h for s in SHAPES for h in ('', '-tmp'))
+# histories the route / callable-kind configurations are crossed with (quick)
+RK_HISTORIES = ('connect', 'plugin', 'success', 'keepalive', 'unknown+',
+                'chat_q', 'chat_f')
 REG_ORDER = ('oo', 'ie', 'oe', 'io')       # interleaved, not the list order
 FILTERS = ('P', 'K', 'C', 'U', 'CS', 'N')
 ALPH = tuple((f, g) for f in FILTERS for g in (False, True))
@@ -352,6 +433,7 @@ class Ref(object):
                 c = callable_of(spec, i)
                 out.append(('L', g, c, self.view() if g[0] == 'i' else None))
                 self.note_match(flt, types, pkt)
+                self.note_how(g, i, spec, ign and pkt in self.primary)
                 if c != i:
                     self.flags.add('second registration of one callable '
                                    'fires%s' % (
@@ -404,6 +486,28 @@ class Ref(object):
         self.queue.append(pkt)
         self.causes.append((cause, pkt))
 
+    def note_how(self, g, i, spec, ignores):
+        r, kd = route_of(spec), kind_of(spec)
+        if r != 'reg':
+            self.flags.add('route %s: %s listener fires' % (r, g))
+            if ignores:
+                self.flags.add('route %s: listener ignores' % r)
+        if r == 'sdec':
+            sib = [s for s in self.cfg[g][:i]
+                   if route_of(s) == 'sdec' and s[0] == spec[0]]
+            n = len(sib)
+            if n:
+                self.flags.add('one decorator object: the listener of its '
+                               '%s application fires (%s)'
+                               % ('second' if n == 1 else 'third', g))
+                if is_late(spec) and not is_late(sib[0]):
+                    self.flags.add('one decorator object: made before '
+                                   'connect(), applied again late')
+        if kd != 'closure':
+            self.flags.add('callable %s: %s listener fires' % (kd, g))
+            if ignores:
+                self.flags.add('callable %s: listener ignores' % kd)
+
     def note_match(self, flt, types, pkt):
         if len(types) == 2:
             self.flags.add('two-type listener matches (must fire once)')
@@ -424,6 +528,52 @@ def callable_of(spec, i):
     the class) or, for (filter, ignore, late, j), the one of registration
     j < i of the same class."""
     return spec[3] if len(spec) > 3 and spec[3] is not None else i
+
+
+def route_of(spec):
+    return spec[4] if len(spec) > 4 and spec[4] else 'reg'
+
+
+def kind_of(spec):
+    return spec[5] if len(spec) > 5 and spec[5] else 'closure'
+
+
+def sp(flt, ign=False, late=False, route='reg', kind='closure'):
+    """(filter, ignore, late, -, route, kind of callable)."""
+    return (flt, bool(ign), bool(late), None, route, kind)
+
+
+class Recorder(object):
+    """Owner of a bound-method listener (on_packet) / a callable
+    instance."""
+
+    def __init__(self, handler, *who):
+        self.handler, self.who = handler, who
+
+    def on_packet(self, packet):
+        self.handler(*self.who + (packet,))
+
+    def __call__(self, packet):
+        self.handler(*self.who + (packet,))
+
+
+def recorder_class(handler, *who):
+    """A class of its own per listener: on_packet is a classmethod (Own.
+    on_packet is a bound method whose owner is the class), on_static a
+    staticmethod (Own.on_static is a plain function)."""
+    class Own(object):
+        @classmethod
+        def on_packet(cls, packet):
+            cls.h(*cls.who + (packet,))
+
+        @staticmethod
+        def on_static(packet):
+            handler(*who + (packet,))
+    Own.h, Own.who = staticmethod(handler), who
+    return Own
+
+
+FUNC_SRC = 'def on_packet(packet):\n    handler(g, i, ign, packet)\n'
 
 
 def oracle(kind, v, cfg, vals, rank):
@@ -590,13 +740,36 @@ def execute(W, kind, v, cfg, plan, primary):
                     + type(p).__name__, None)
         return (name, getattr(p, KEYFIELD[name], None))
 
-    def make(g, i, ign):
-        def callback(packet):
-            k = pkey(packet)
-            S.event('L', g, i, k, view())
-            if ign and k in primary:
-                raise C.IgnorePacket
-        return callback
+    def handler(g, i, ign, packet):
+        k = pkey(packet)
+        S.event('L', g, i, k, view())
+        if ign and k in primary:
+            raise C.IgnorePacket
+
+    def owner(shape, g, i, ign):
+        """The object a user would hold on to: the callable itself or the
+        object / class whose method it is."""
+        if shape == 'closure':
+            def callback(packet):
+                handler(g, i, ign, packet)
+            return callback
+        if shape == 'func':             # no closure, no defaults
+            ns = {'handler': handler, 'g': g, 'i': i, 'ign': ign}
+            exec(FUNC_SRC, ns)
+            return ns.pop('on_packet')
+        if shape == 'lambda':
+            return lambda packet: handler(g, i, ign, packet)
+        if shape == 'partial':
+            return functools.partial(handler, g, i, ign)
+        if shape in ('callable', 'method'):
+            return Recorder(handler, g, i, ign)
+        if shape in ('cmeth', 'smeth'):
+            return recorder_class(handler, g, i, ign)
+        raise ToolError('unknown kind of callable %r' % (shape,))
+
+    def access(shape, o):
+        return o.on_packet if shape in ('method', 'cmeth') else \
+            o.on_static if shape == 'smeth' else o
 
     def guarded(what, fn, *a, **kw):
         try:
@@ -607,22 +780,77 @@ def execute(W, kind, v, cfg, plan, primary):
             return False
         return True
 
-    callables = {}
+    kept = {}           # (class, callable) -> the reference the user keeps
+    decorators = {}     # (class, types) -> the one decorator object
+    shared_kw = {}      # class -> the one keyword dict, passed as **kw
+
+    def producer(g, c):
+        """-> a function that yields the callable of registration c of
+        class g, to be called inside the registration statement."""
+        kd = kind_of(cfg[g][c])
+        shape, ign = kd.split('-')[0], cfg[g][c][1]
+        if kd.endswith('-tmp'):
+            return lambda: access(shape, owner(shape, g, c, ign))
+        if (g, c) not in kept:
+            kept[g, c] = owner(shape, g, c, ign)
+        return lambda: access(shape, kept[g, c])
+
+    def register_one(route, g, types, produce):
+        early, outgoing = g[1] == 'e', g[0] == 'o'
+        if g not in shared_kw:
+            shared_kw[g] = {'early': early, 'outgoing': outgoing}
+        kw = shared_kw[g]
+        what = 'register_packet_listener' if route in (
+            'reg', 'reg_rev', 'reg_min', 'kw') else 'listener'
+        try:
+            if route == 'reg':
+                conn.register_packet_listener(produce(), *types, early=early,
+                                              outgoing=outgoing)
+            elif route == 'reg_rev':
+                conn.register_packet_listener(produce(), *types,
+                                              outgoing=outgoing, early=early)
+            elif route == 'reg_min':
+                conn.register_packet_listener(
+                    produce(), *types, **{k: True for k in sorted(kw)
+                                          if kw[k]})
+            elif route == 'kw':
+                conn.register_packet_listener(produce(), *types, **kw)
+            elif route == 'dec':
+                conn.listener(*types, early=early, outgoing=outgoing)(
+                    produce())
+            elif route == 'dec_kw':
+                conn.listener(*types, **kw)(produce())
+            elif route == 'sdec':
+                key = (g, tuple(types))
+                if key not in decorators:
+                    decorators[key] = conn.listener(*types, early=early,
+                                                    outgoing=outgoing)
+                decorators[key](produce())
+            else:
+                raise ToolError('unknown registration route %r' % (route,))
+        except ToolError:
+            raise
+        except Exception as e:          # pyCraft raising into the user
+            problems.append(('api-exception', '%s (route %s) raised %s: %s'
+                             % (what, route, type(e).__name__, e)))
+    collect = any(kind_of(s).endswith('-tmp') for g in GROUPS
+                  for s in cfg[g])
 
     def register(late):
         for i in range(3):
             for g in REG_ORDER:
                 if i < len(cfg[g]) and is_late(cfg[g][i]) == late:
-                    flt = cfg[g][i][0]
-                    c = callable_of(cfg[g][i], i)
-                    if (g, c) not in callables:
-                        callables[g, c] = make(g, c, cfg[g][c][1])
+                    spec = cfg[g][i]
+                    c = callable_of(spec, i)
+                    if c != i and kind_of(cfg[g][c]).endswith('-tmp'):
+                        raise ToolError('a callable nobody keeps cannot be '
+                                        'registered a second time')
                     types = [real[t] for t in
-                             filter_types(flt, g, kind, v, W.rank)]
-                    guarded('register_packet_listener',
-                            conn.register_packet_listener, callables[g, c],
-                            *types, early=(g[1] == 'e'),
-                            outgoing=(g[0] == 'o'))
+                             filter_types(spec[0], g, kind, v, W.rank)]
+                    register_one(route_of(spec), g, types, producer(g, c))
+        if collect:
+            # whatever only the registrations refer to must survive this
+            gc.collect()
     register(False)
     srv = None
     for step in plan:
@@ -768,6 +996,8 @@ def show_cfg(cfg):
     return ' '.join('%s=[%s]' % (g, ','.join(
         s[0] + ('!' if s[1] else '') + ('~' if is_late(s) else '')
         + ('@%d' % s[3] if callable_of(s, None) is not None else '')
+        + (':' + route_of(s) if route_of(s) != 'reg' else '')
+        + ('/' + kind_of(s) if kind_of(s) != 'closure' else '')
         for s in cfg[g])) for g in GROUPS)
 
 
@@ -915,7 +1145,15 @@ def run_case(ctx, kind, v, cfg, seed):
                       'IgnorePacket for the primary packet, X~ = registered '
                       'after the first packet of the history, X@j = the '
                       'callable of registration j of the class registered '
-                      'again; calls are named class+callable): %s'
+                      'again; X:r = registered through route r - reg_rev / '
+                      'reg_min: register_packet_listener with the flags in '
+                      'the other order / only the true flags, kw: with **kw '
+                      'of one dict per class, dec / dec_kw: a fresh '
+                      'conn.listener(...) decorator, sdec: ONE decorator '
+                      'object per class and filter applied to each of them; '
+                      'X/k = the callable is a k, k-tmp: referenced only '
+                      'by the registration, garbage collection forced after '
+                      'registering; calls are named class+callable): %s'
                       % (kind, v, show_cfg(cfg), text), case)
     return res
 
@@ -1985,12 +2223,157 @@ def dup_configurations(tier, v, late=False):
     return out
 
 
+def put(out, gi, grp, sur):
+    c = [sur] * 3
+    c.insert(gi, tuple(grp))
+    out.add(tuple(c))
+
+
+FILTER_PAIRS = (('P', 'P'), ('C', 'P'), ('P', 'C'))
+
+
+def route_configurations(tier, v):
+    """The registration route as a dimension (callables: kept closures).
+    R1 one listener; R2 one decorator object applied two or three times
+    (also around a plainly registered listener, and two decorator objects
+    alternating); R3 one decorator object in each of two classes; R4 pairs
+    of routes inside one class."""
+    big = tier == 'thorough' or v == 757
+    huge = tier == 'thorough' and v == 757
+    surs = [(), (PLAIN_P,)] if big else [(PLAIN_P,)]
+    out = set()
+    for gi in range(4):
+        # R1
+        for r in ROUTES[1:]:
+            for f in (FILTERS if big else ('P', 'C', 'N')):
+                for ign in (False, True):
+                    for sur in surs:
+                        put(out, gi, [sp(f, ign, route=r)], sur)
+        # R2
+        for f in FILTERS:
+            for n in (2, 3):
+                for j in range(n + 1):      # which one ignores (n: none)
+                    for sur in surs:
+                        put(out, gi, [sp(f, i == j, route='sdec')
+                                      for i in range(n)], sur)
+            if not big:
+                continue
+            for j in (None, 0, 2):
+                a, b, c = (sp(f, j == 0, route='sdec'), sp('P', False),
+                           sp(f, j == 2, route='sdec'))
+                for sur in surs:
+                    put(out, gi, [a, b, c], sur)
+                    put(out, gi, [b, a, c], sur)
+        if big:
+            for f1, f2 in itertools.permutations(('P', 'C', 'K'), 2):
+                for ign in (False, True):
+                    for sur in surs:
+                        put(out, gi, [sp(f1, False, route='sdec'),
+                                      sp(f2, False, route='sdec'),
+                                      sp(f1, ign, route='sdec')], sur)
+        # R4
+        pairs = [(a, b) for a in ROUTES for b in ROUTES
+                 if (a, b) != ('reg', 'reg')
+                 and (big or a == b or 'reg' in (a, b))]
+        for r1, r2 in pairs:
+            for f1, f2 in (FILTER_PAIRS if big else FILTER_PAIRS[:2]):
+                for j in ((None, 0, 1) if big else (None, 0)):
+                    for sur in (surs if huge else [()]):
+                        put(out, gi, [sp(f1, j == 0, route=r1),
+                                      sp(f2, j == 1, route=r2)], sur)
+    # R3
+    if big:
+        for g1, g2 in itertools.combinations(range(4), 2):
+            for f1, f2 in itertools.product(('P', 'C'), repeat=2):
+                for j in (None, 1, 2):
+                    c = [(), (), (), ()]
+                    c[g1] = (sp(f1, False, route='sdec'),
+                             sp(f1, j == 1, route='sdec'))
+                    c[g2] = (sp(f2, False, route='sdec'),
+                             sp(f2, j == 2, route='sdec'))
+                    out.add(tuple(c))
+    return out
+
+
+def kind_configurations(tier, v):
+    """The kind of callable as a dimension.  K1 one listener; K2 pairs
+    inside one class; K3 kind x route; K4 one decorator object applied to
+    two callables of one kind."""
+    big = tier == 'thorough' or v == 757
+    huge = tier == 'thorough' and v == 757
+    surs = [(), (PLAIN_P,)] if big else [(PLAIN_P,)]
+    kinds = CALLABLES[1:]
+    out = set()
+    for gi in range(4):
+        for kd in kinds:
+            # K1
+            for f in (('P', 'C', 'CS') if big else ('P', 'C')):
+                for ign in (False, True):
+                    for sur in surs:
+                        put(out, gi, [sp(f, ign, kind=kd)], sur)
+            # K3, K4
+            if big:
+                for r in ROUTES[1:]:
+                    for f in (('P', 'C') if tier == 'thorough' else ('P',)):
+                        for ign in (False, True):
+                            put(out, gi, [sp(f, ign, route=r, kind=kd)], ())
+                for ign in (False, True):
+                    put(out, gi, [sp('P', False, route='sdec', kind=kd),
+                                  sp('P', ign, route='sdec', kind=kd)], ())
+        # K2
+        pairs = [(a, b) for a in CALLABLES for b in CALLABLES
+                 if (a, b) != ('closure', 'closure')
+                 and (huge or a == b or (big and 'closure' in (a, b)))]
+        for k1, k2 in pairs:
+            for f1, f2 in (FILTER_PAIRS if huge else FILTER_PAIRS[:2]
+                           if big else FILTER_PAIRS[:1]):
+                for j in ((None, 0, 1) if big else (None, 0)):
+                    put(out, gi, [sp(f1, j == 0, kind=k1),
+                                  sp(f2, j == 1, kind=k2)], ())
+    return out
+
+
+def late_rk_configurations(tier, v):
+    """Routes and kinds of callable for the ~ histories: a late listener of
+    every route / kind; one decorator object made before connect() and
+    applied again late, or applied twice late; a pair of one kind as
+    (before connect, late)."""
+    out = set()
+    for gi in range(4):
+        for f in ('P', 'C'):
+            for ign in (False, True):
+                for r in ROUTES[1:]:
+                    put(out, gi, [sp(f, ign, True, route=r)], ())
+                for kd in CALLABLES[1:]:
+                    put(out, gi, [sp(f, ign, True, kind=kd)], ())
+                for first_late in (False, True):
+                    put(out, gi, [sp(f, False, first_late, route='sdec'),
+                                  sp(f, ign, True, route='sdec')], ())
+                    put(out, gi, [sp(f, False, first_late, route='sdec'),
+                                  sp(f, ign, True, route='sdec'),
+                                  sp(f, False, True, route='sdec')], ())
+        for kd in CALLABLES[1:]:
+            for ign in (False, True):
+                put(out, gi, [sp('P', False, False, kind=kd),
+                              sp('P', ign, True, kind=kd)], ())
+    return out
+
+
 def as_cfg(t):
     return dict(zip(GROUPS, t))
 
 
+_FROZEN = []
+
+
 def w_chunk(ctx, task):
     v, kind, seed, cfgs = task
+    if _FROZEN != [os.getpid()]:
+        # the forced collections between registration and dispatch look at
+        # the objects of the case only, not at the whole worker process
+        gc.collect()
+        gc.freeze()
+        _FROZEN[:] = [os.getpid()]
     for t in cfgs:
         run_case(ctx, kind, v, as_cfg(t), seed)
 
@@ -2027,17 +2410,58 @@ def run(ctx):
             use = lcfgs if kind.endswith('~') else cfgs
             for i in range(0, len(use), 40):
                 tasks.append((v, kind, ctx.seed, use[i:i + 40]))
+    rk_counts = {}
+    for v in VERSIONS:
+        rc = sorted(route_configurations(ctx.tier, v), key=repr)
+        kc = sorted(kind_configurations(ctx.tier, v), key=repr)
+        lc = sorted(late_rk_configurations(ctx.tier, v), key=repr) \
+            if v == 757 or ctx.thorough else []
+        rk_counts[str(v)] = {'routes': len(rc), 'callable kinds': len(kc),
+                             'late': len(lc)}
+        use = rc + kc
+        rng.shuffle(use)
+        rng.shuffle(lc)
+        for kind in kinds_for(v, rank):
+            if kind.endswith('~'):
+                cf = lc
+            elif ctx.thorough or kind in RK_HISTORIES:
+                cf = use
+            else:
+                continue
+            for i in range(0, len(cf), 40):
+                tasks.append((v, kind, ctx.seed, cf[i:i + 40]))
     rng.shuffle(tasks)
     xtasks, xcounts = x_tasks(ctx, rng)
     rng.shuffle(xtasks)
     ctx.extra['configurations_per_version'] = per_version
     ctx.extra['late_configurations_per_version'] = late_per_version
     ctx.extra['histories'] = list(KINDS)
+    ctx.extra['route_and_callable_configurations_per_version'] = rk_counts
+    ctx.extra['registration_routes'] = list(ROUTES)
+    ctx.extra['kinds_of_callable'] = list(CALLABLES)
+    ctx.extra['route_and_callable_histories'] = list(KINDS) if ctx.thorough \
+        else list(RK_HISTORIES) + [k for k in KINDS if k.endswith('~')]
     ctx.extra['x_configurations_per_version'] = xcounts
     ctx.extra['x_histories'] = {
         'xa': ['%s/%s' % sd for sd in XA_SHAPES],
         'xc': ['%s kick=%d %s' % h for h in XC_SHAPES]}
     ctx.pmap(w_chunk, tasks)
+    if not ctx.violations:
+        need = ['route %s: %s listener fires' % (r, g)
+                for r in ROUTES[1:] for g in GROUPS]
+        need += ['route %s: listener ignores' % r for r in ROUTES[1:]]
+        need += ['callable %s: %s listener fires' % (kd, g)
+                 for kd in CALLABLES[1:] for g in GROUPS]
+        need += ['callable %s: listener ignores' % kd
+                 for kd in CALLABLES[1:]]
+        need += ['one decorator object: the listener of its %s application '
+                 'fires (%s)' % (n, g) for n in ('second', 'third')
+                 for g in GROUPS]
+        need += ['one decorator object: made before connect(), applied '
+                 'again late']
+        for n in need:
+            if not ctx.classes.get(n):
+                raise ToolError('vacuous: no case shows %r' % n)
     ctx.pmap(w_xchunk, xtasks)
     xf = {k[6:]: ctx.extra.pop(k) for k in sorted(ctx.extra)
           if k.startswith('xfact ')}
@@ -2104,7 +2528,9 @@ def replay(ctx, case):
     cfg = {g: tuple((str(s[0]), bool(s[1]))
                     + ((is_late(s),) if len(s) > 2 else ())
                     + ((int(s[3]),) if len(s) > 3 and s[3] is not None
-                       else ())
+                       else (None,) if len(s) > 4 else ())
+                    + ((str(s[4] or 'reg'), str(s[5] or 'closure'))
+                       if len(s) > 4 else ())
                     for s in case['cfg'][g]) for g in GROUPS}
     run_case(ctx, case['kind'], int(case['version']), cfg,
              int(case.get('seed', 0)))
